@@ -915,6 +915,64 @@ func init() {
 		return nil
 	})
 
+	// sync.Map: a map[any]any behind the receiver's address (one goroutine runs at a time in this
+	// engine and the operations are atomic, so no further synchronisation is modelled)
+	smap := func(i *interpreter, cell *value) *hashmap {
+		if i.ps.syncMaps == nil {
+			i.ps.syncMaps = map[*value]*hashmap{}
+		}
+		m := i.ps.syncMaps[cell]
+		if m == nil {
+			m = makeMap(types.NewInterfaceType(nil, nil), 0).(*hashmap)
+			i.ps.syncMaps[cell] = m
+		}
+		return m
+	}
+	reg("(*sync.Map).Load", func(i *interpreter, fr *frame, fn *ssa.Function, a []value) value {
+		v, ok := smap(i, a[0].(*value)).lookup(i, fr, a[1])
+		if !ok {
+			return tuple{iface{}, false}
+		}
+		return tuple{v, true}
+	})
+	reg("(*sync.Map).Store", func(i *interpreter, fr *frame, fn *ssa.Function, a []value) value {
+		smap(i, a[0].(*value)).insert(i, fr, a[1], a[2])
+		return nil
+	})
+	reg("(*sync.Map).LoadOrStore", func(i *interpreter, fr *frame, fn *ssa.Function, a []value) value {
+		m := smap(i, a[0].(*value))
+		if v, ok := m.lookup(i, fr, a[1]); ok {
+			return tuple{v, true}
+		}
+		m.insert(i, fr, a[1], a[2])
+		return tuple{a[2], false}
+	})
+	reg("(*sync.Map).LoadAndDelete", func(i *interpreter, fr *frame, fn *ssa.Function, a []value) value {
+		m := smap(i, a[0].(*value))
+		v, ok := m.lookup(i, fr, a[1])
+		if !ok {
+			return tuple{iface{}, false}
+		}
+		m.delete(i, fr, a[1])
+		return tuple{v, true}
+	})
+	reg("(*sync.Map).Delete", func(i *interpreter, fr *frame, fn *ssa.Function, a []value) value {
+		smap(i, a[0].(*value)).delete(i, fr, a[1])
+		return nil
+	})
+	reg("(*sync.Map).Range", func(i *interpreter, fr *frame, fn *ssa.Function, a []value) value {
+		m := smap(i, a[0].(*value))
+		for _, e := range append([]*entry(nil), m.ents...) {
+			if e.dead {
+				continue
+			}
+			if r, _ := callIn(i, fr, fr.g, token.NoPos, a[1], []value{e.key, e.value}).(bool); !r {
+				break
+			}
+		}
+		return nil
+	})
+
 	// sync/atomic free functions operate on cells
 	for _, T := range []string{"Int32", "Int64", "Uint32", "Uint64", "Uintptr", "Pointer"} {
 		T := T
@@ -1082,6 +1140,10 @@ func init() {
 		src := a[1].([]value)
 		dst, _ := a[2].([]value)
 		bad := func() value { return tuple{[]value(nil), i.newError(fr, "zstd: invalid input (model)")} }
+		if len(src) == 0 {
+			// no frame at all: the real DecodeAll returns what it was given, without an error
+			return tuple{dst, iface{}}
+		}
 		if len(src) < len(zstdMagic) {
 			return bad()
 		}
